@@ -284,9 +284,13 @@ def replay(ctx, rep):
         bool_checks(logic)
         return
     tf = to_tuple(c['f'])
-    f = build(L, tf)
-    judge_clone(logic, f, tf)
-    for key in ('g', 'h'):
-        if key in c:
-            tg = to_tuple(c[key])
-            judge_pair(logic, f, tf, build(L, tg), tg, True)
+    for raw_f in (False, True):
+        f = build(L, tf, raw_leaves=raw_f)
+        judge_clone(logic, f, tf)
+        judge_pair(logic, f, tf, f.clone(), tf, True)
+        for key in ('g', 'h'):
+            if key in c:
+                tg = to_tuple(c[key])
+                for raw_g in (False, True):
+                    judge_pair(logic, f, tf, build(L, tg, raw_leaves=raw_g),
+                               tg, True)
